@@ -17,13 +17,13 @@ OP = 0
 LO = 0
 HI = 1
 MAXLEAVES = 3
+YMAX = 0
 CALLBACKS = ("and_composition", "or_composition", "xor_composition")
 _CASES = {}
 
 
 def fc_step(lf: bool, rf: bool, lm: Optional[str], rm: Optional[str]) -> bool:
     """
-    pre: (lm is None) == lf and (rm is None) == rf
     post: _
     """
     l = EvaluatedFormatConstraint(format_constraint_fulfilled=lf, error_message=lm)
@@ -39,7 +39,8 @@ def fc_step(lf: bool, rf: bool, lm: Optional[str], rm: Optional[str]) -> bool:
     got = res.format_constraint_fulfilled
     if not isinstance(res, EvaluatedFormatConstraint) or bool(got) != bool(want):
         return xs.fail(f"{CALLBACKS[OP]}(fulfilled={lf}, fulfilled={rf}) = {got}, Boolean value is {want}", lf=lf, rf=rf, lm=lm, rm=rm)
-    if (res.error_message is None) != bool(got):
+    proviso = ((lm is None) == lf) and ((rm is None) == rf)  # every unfulfilled operand carries a message (and only those)
+    if proviso and (res.error_message is None) != bool(got):
         return xs.fail(f"{CALLBACKS[OP]}(({lf},{lm!r}), ({rf},{rm!r})) is {'fulfilled' if got else 'unfulfilled'} with error message {res.error_message!r}", lf=lf, rf=rf, lm=lm, rm=rm)
     return True
 
@@ -124,30 +125,43 @@ def cases():
     return out
 
 
-def fc_glue(idx: int, f0: bool, f1: bool, f2: bool, f3: bool, y: int) -> bool:
+def fc_glue(idx: int, f0: bool, f1: bool, f2: bool, f3: bool, y: int, nomsg: bool) -> bool:
     """
-    pre: LO <= idx < HI and 0 <= y <= 1
+    pre: LO <= idx < HI and 0 <= y <= YMAX
     post: _
     """
     idx = xs.pick(idx, LO, HI)
-    y = xs.pick(y, 0, 2)
+    y = xs.pick(y, 0, YMAX + 1)
     with xs.nt():
         text, keys = cases()[idx]
         tree = env.real_parser("condition").parse(text)
     fb = [f0, f1, f2, f3]
     sigma = {k: fb[i] for i, k in enumerate(keys)}
     yc = {keys[0]: y} if keys else {}
-    env.setup(fc=sigma, yc=yc)
+    if nomsg:
+        # evaluated single constraints WITHOUT error messages (as DictBased/ContentEvaluationResult-based evaluators may
+        # deliver them): only the Boolean value is claimed then
+        from ahbicht.content_evaluation.fc_evaluators import DictBasedFcEvaluator
+
+        efcs = {k: EvaluatedFormatConstraint(format_constraint_fulfilled=v, error_message=None) for k, v in sigma.items()}
+        with xs.nt():
+            env.install_parser_proxies()
+            dfc = DictBasedFcEvaluator(efcs)
+            dfc.edifact_format, dfc.edifact_format_version = env.FMT, env.FV
+            log = env.Log()
+            env.configure([env.make_rc_evaluator({}, {}, log), dfc, env.YHints({}, {}, log), env.YResolver({}, [], log)])
+    else:
+        env.setup(fc=sigma, yc=yc)
     try:
         res = detloop.run(format_constraint_evaluation(text))
     except Exception as e:  # pylint:disable=broad-except
         xs.reached()
-        return xs.fail(f"format_constraint_evaluation('{text}') raised {type(e).__name__}: {e}", idx=idx, f0=f0, f1=f1, f2=f2, f3=f3, y=y)
+        return xs.fail(f"format_constraint_evaluation('{text}') raised {type(e).__name__}: {e}", idx=idx, f0=f0, f1=f1, f2=f2, f3=f3, y=y, nomsg=nomsg)
     xs.reached()
     want = refsem.fc_bool(tree, sigma)
     got = res.format_constraints_fulfilled
     if bool(got) != bool(want):
-        return xs.fail(f"format_constraint_evaluation('{text}') = {got} under {sigma}; Boolean value with the documented precedence is {want}", idx=idx, f0=f0, f1=f1, f2=f2, f3=f3, y=y)
-    if (res.error_message is None) != bool(got):
-        return xs.fail(f"format_constraint_evaluation('{text}') under {sigma} is {'fulfilled' if got else 'unfulfilled'} with error message {res.error_message!r}", idx=idx, f0=f0, f1=f1, f2=f2, f3=f3, y=y)
+        return xs.fail(f"format_constraint_evaluation('{text}') = {got} under {sigma}; Boolean value with the documented precedence is {want}", idx=idx, f0=f0, f1=f1, f2=f2, f3=f3, y=y, nomsg=nomsg)
+    if not nomsg and (res.error_message is None) != bool(got):
+        return xs.fail(f"format_constraint_evaluation('{text}') under {sigma} is {'fulfilled' if got else 'unfulfilled'} with error message {res.error_message!r}", idx=idx, f0=f0, f1=f1, f2=f2, f3=f3, y=y, nomsg=nomsg)
     return True
